@@ -30,8 +30,9 @@ MUTATIONS = [
     ("seek_relative_whence", WK, "newPos, err = stdout.Seek(filePos, 0)", "newPos, err = stdout.Seek(filePos, 1)", "local", []),
     ("pos_advance_short", WK, "filePos += int64(n)\n", "filePos += int64(n) - 1\n", "local", []),
     ("size_check_gt", WK, "filePos >= unitStatus.StdoutSize {", "filePos > unitStatus.StdoutSize {", "local", []),
-    ("finish_without_size_check", WK, "IsComplete(unitStatus.State) && filePos >= unitStatus.StdoutSize {", "IsComplete(unitStatus.State) {", "both", []),
-    ("finish_on_running", WK, "if IsComplete(unitStatus.State) && filePos", "if (IsComplete(unitStatus.State) || unitStatus.State == WorkStateRunning) && filePos", "local", []),
+    ("finish_without_size_check", WK, "finished(unitStatus.State) && filePos >= unitStatus.StdoutSize {", "finished(unitStatus.State) {", "both", []),
+    ("finish_on_running", WK, "if finished(unitStatus.State) && filePos", "if (finished(unitStatus.State) || unitStatus.State == WorkStateRunning) && filePos", "local", []),
+    ("cancel_fix_reverted", WK, "return IsComplete(state) || state == WorkStateCanceled", "return IsComplete(state)", "local", ["-cancel-groups", "2"]),
     ("stream_not_closed", "pkg/workceptor/controlsvc.go", "\t\terr = cfo.Close()\n\t\tif err != nil {\n\t\t\treturn nil, err\n\t\t}\n\n\t\treturn nil, nil\n\t}\n\n\treturn nil, fmt.Errorf(\"bad command\")",
      "\t\treturn nil, nil\n\t}\n\n\treturn nil, fmt.Errorf(\"bad command\")", "local", []),
     ("mirror_request_from_zero", RW, 'workSubmitCmd["startpos"] = diskStdoutSize', 'workSubmitCmd["startpos"] = 0', "remote", []),
@@ -58,7 +59,6 @@ SPEC_MUTANTS = [
      "rd' = [rd EXCEPT ![r] = [pc |-> \"wait\", p |-> p, pos |-> p + 1, sent |-> <<>>]]", ["NoGapNoRepeat"]),
     ("spec_mirror_request_from_zero", "     ELSE IF disk < aSize THEN pcO' = \"connect\" /\\ reqFrom' = disk", "     ELSE IF disk < aSize THEN pcO' = \"connect\" /\\ reqFrom' = 0", ["MirrorPrefix", "NoGapNoRepeat"]),
     ("spec_mirror_done_without_size", "     IF IsComplete(aState) /\\ disk >= aSize THEN pcO' = \"done\" /\\ UNCHANGED reqFrom", "     IF IsComplete(aState) THEN pcO' = \"done\" /\\ UNCHANGED reqFrom", ["MirrorDoneIsConverged", "MirrorConverges", "temporal"]),
-    ("spec_size_recorded_with_bytes", None, None, []),  # placeholder: nothing to refute, listed for symmetry
 ]
 
 
@@ -145,7 +145,7 @@ def main():
             sigs, inconcl, evals = {}, [], 0
             if part in ("local", "both"):
                 res = vlib.harness_json(vres, ["local", "-bin", binp, "-work", wd, "-vectors", vectors, "-seed", seed,
-                                               "-groups", "10", "-cancel-groups", "0", "-par", "6"] + extra, wd, timeout=1500, name="local")
+                                               "-groups", "10", "-cancel-groups", "1", "-par", "6"] + extra, wd, timeout=1500, name="local")
                 evals += res["evaluations"]
                 inconcl += res.get("inconclusive") or []
                 for k, n in (res.get("counters") or {}).items():
